@@ -3,6 +3,7 @@ package main
 import (
 	"fmt"
 	"go/ast"
+	"go/token"
 	"go/types"
 	"strings"
 
@@ -38,6 +39,7 @@ func runC07(c *Ctx) {
 		return
 	}
 	x := &c07x{c: c, m: m, funcs: m.FuncsIn("kgo")}
+	c07scratch(c, m)
 	x.callbackSites()
 	x.revokeFn()
 	x.sessionGoroutines()
@@ -467,4 +469,78 @@ func (x *c07x) revokeFn() {
 		return true
 	})
 	c.Floor(rule3+"#rejoin-in-revoke", n, 1)
+}
+
+// c07scratch: in the range balancer (the one balancer with a per-topic
+// "already assigned" bitmap) every element-written scratch slice of the
+// per-topic loop is freshly made inside the iteration.  State that survives
+// from one topic to the next makes partitions of the next topic look assigned:
+// they end up owned by no member although the group is stable.
+func c07scratch(c *Ctx, m *Module) {
+	rule := "balancer-per-topic-scratch-fresh"
+	f := c.NeedFunc(m, "kgo.rangeBalancer.Balance")
+	if f == nil {
+		return
+	}
+	info := f.Info()
+	// the per-topic loop: the outermost range statement whose body calls AddPartition
+	var loop *ast.RangeStmt
+	for _, st := range f.Decl.Body.List {
+		if rs, ok := st.(*ast.RangeStmt); ok && containsNode(rs.Body, true, func(y ast.Node) bool {
+			call, ok := y.(*ast.CallExpr)
+			return ok && strings.HasSuffix(nosp(exprStr(call.Fun)), ".AddPartition")
+		}) {
+			loop = rs
+		}
+	}
+	if loop == nil {
+		c.Undecided(rule, f.Key+"#per-topic loop", f.Pos(), m, "the per-topic loop (range ... { ... AddPartition ... }) was not found")
+		return
+	}
+	// slices written by element inside the loop
+	written := map[types.Object]ast.Node{}
+	ast.Inspect(loop.Body, func(x ast.Node) bool {
+		var target ast.Expr
+		switch s := x.(type) {
+		case *ast.AssignStmt:
+			for _, l := range s.Lhs {
+				if ix, ok := l.(*ast.IndexExpr); ok {
+					target = ix.X
+				}
+			}
+		case *ast.IncDecStmt:
+			if ix, ok := s.X.(*ast.IndexExpr); ok {
+				target = ix.X
+			}
+		}
+		if id, ok := target.(*ast.Ident); ok {
+			if o := info.Uses[id]; o != nil {
+				if _, isSlice := o.Type().Underlying().(*types.Slice); isSlice {
+					written[o] = x
+				}
+			}
+		}
+		return true
+	})
+	n := 0
+	for o, site := range written {
+		n++
+		// declared by `x := make(...)` as a direct statement of the loop body
+		fresh := false
+		for _, st := range loop.Body.List {
+			as, ok := st.(*ast.AssignStmt)
+			if !ok || as.Tok != token.DEFINE || len(as.Lhs) != 1 || len(as.Rhs) != 1 {
+				continue
+			}
+			id, ok := as.Lhs[0].(*ast.Ident)
+			if !ok || info.Defs[id] != o {
+				continue
+			}
+			if call, ok := as.Rhs[0].(*ast.CallExpr); ok && exprStr(call.Fun) == "make" {
+				fresh = true
+			}
+		}
+		c.Check(fresh, rule, f.Key+": "+o.Name()+" is made inside the per-topic iteration", site.Pos(), m, "", "the scratch slice `"+o.Name()+"` that marks partitions/consumers while a topic is balanced is not freshly made for every topic: marks of the previous topic survive, its partitions are skipped for the next topic and stay assigned to no member")
+	}
+	c.Floor(rule+"/scratch-slices", n, 2)
 }
